@@ -24,6 +24,8 @@ pub fn alphabets() -> Vec<Alphabet> {
         // unusual Unicode: byte order mark, no-break space, zero-width space, line separator,
         // next line, micro sign and Greek mu, pi, combining accent
         Alphabet { id: "A-uni", symbols: vec!["\u{feff}", "\u{a0}", "\u{200b}", "\u{2028}", "\u{85}", "µ", "μ", "π", "é", "\u{301}", "x", " ", "1", ";"] },
+        // identifier-like lexemes: hardware qubits, underscores, directive prefixes
+        Alphabet { id: "A-ident", symbols: vec!["$", "_", "0", "1", "a", "é", "#", "@", "pragma", "dim", " ", "\n", "x", "😀"] },
         Alphabet { id: "A-punct", symbols: vec!["<", ">", "=", "!", "&", "|", "+", "-", "*", ".", ":", "/", " ", "a"] },
     ]
 }
